@@ -237,18 +237,54 @@ Definition r2_events : list (event (EOps r2_types)) :=
     Calc (EOps r2_types) nT nA [(1, (EInt 1, EBool true))];
     Calc (EOps r2_types) nT nA [(1, (EBool true, EBool false))] ].
 
+Definition r2_check : bool :=
+  wf_stateb (EOps r2_types) r2_state &&
+  match run (EOps r2_types) r2_state r2_events with
+  | Ok (s', out) =>
+      match replay_doc (EOps r2_types) (rev (o_undo (EOps r2_types) out)) s' with
+      | Ok s'' =>
+          match find_table (EOps r2_types) s'' nT with
+          | Some T =>
+              match find_col (EOps r2_types) (t_cols (EOps r2_types) T) nA with
+              | Some C => zmem 1 (t_rows (EOps r2_types) T) && ev_same (col_get (EOps r2_types) C 1) (EBool true) &&
+                          colinfo_eqb (c_info (EOps r2_types) C) ciData &&
+                          negb (ev_enc (col_get (EOps r2_types) C 1) (EInt 1))
+              | None => false
+              end
+          | None => false
+          end
+      | Err _ => false
+      end
+  | Err _ => false
+  end.
+
+Lemma r2_check_true : r2_check = true.
+Proof. vm_compute. reflexivity. Qed.
+
 Theorem C01_refuted_to_formula_type_change :
   exists s es s' out s'' T C, wf_state (EOps r2_types) s /\ run (EOps r2_types) s es = Ok (s', out) /\
     replay_doc (EOps r2_types) (rev (o_undo (EOps r2_types) out)) s' = Ok s'' /\
     find_table (EOps r2_types) s'' nT = Some T /\ find_col (EOps r2_types) (t_cols (EOps r2_types) T) nA = Some C /\
-    col_get (EOps r2_types) C 1 = EBool true /\ c_info (EOps r2_types) C = ciData /\ ~ seq (EOps r2_types) s'' s.
+    ev_same (col_get (EOps r2_types) C 1) (EBool true) = true /\ c_info (EOps r2_types) C = ciData /\
+    ~ seq (EOps r2_types) s'' s.
 Proof.
-  exists r2_state, r2_events. eexists. eexists. eexists. eexists. eexists.
-  split; [apply (wf_stateb_sound (EOps r2_types)); vm_compute; reflexivity|].
-  split; [vm_compute; reflexivity|]. split; [vm_compute; reflexivity|].
-  split; [vm_compute; reflexivity|]. split; [vm_compute; reflexivity|]. split; [reflexivity|]. split; [reflexivity|].
-  intro H.
-  eapply (seq_cell (EOps r2_types) _ _ nT nA 1) in H;
-    [ | vm_compute; reflexivity | vm_compute; reflexivity | vm_compute; reflexivity | vm_compute; reflexivity | left; reflexivity].
-  vm_compute in H. discriminate.
+  pose proof r2_check_true as H. unfold r2_check in H.
+  apply andb_true_iff in H. destruct H as [Hwf H].
+  destruct (run (EOps r2_types) r2_state r2_events) as [[s' out]|] eqn:Erun; [|discriminate].
+  destruct (replay_doc (EOps r2_types) (rev (o_undo (EOps r2_types) out)) s') as [s''|] eqn:Erep; [|discriminate].
+  destruct (find_table (EOps r2_types) s'' nT) as [T|] eqn:Eft; [|discriminate].
+  destruct (find_col (EOps r2_types) (t_cols (EOps r2_types) T) nA) as [C|] eqn:Efc; [|discriminate].
+  apply andb_true_iff in H. destruct H as [H H4]. apply andb_true_iff in H. destruct H as [H H3].
+  apply andb_true_iff in H. destruct H as [H1 H2].
+  exists r2_state, r2_events, s', out, s'', T, C.
+  split; [apply (wf_stateb_sound (EOps r2_types)); exact Hwf|].
+  split; [exact Erun|]. split; [exact Erep|]. split; [exact Eft|]. split; [exact Efc|]. split; [exact H2|].
+  split; [apply colinfo_eqb_eq; exact H3|].
+  intro Hs.
+  pose proof (seq_cell (EOps r2_types) s'' r2_state nT nA 1 T C
+                (mkTab (EOps r2_types) nT [1] [mkCol (EOps r2_types) nA ciData [(1, EInt 1)]])
+                (mkCol (EOps r2_types) nA ciData [(1, EInt 1)]) Hs Eft Efc eq_refl eq_refl
+                (proj1 (zmem_In _ _) H1)) as H5.
+  change (col_get (EOps r2_types) (mkCol (EOps r2_types) nA ciData [(1, EInt 1)]) 1) with (EInt 1) in H5.
+  change (venc (EOps r2_types)) with ev_enc in H5. rewrite H5 in H4. discriminate.
 Qed.
